@@ -143,10 +143,23 @@ class StmtMixin:
                 fv = self.ev(st, s.exc.func, lambda s2, v: [Out("ok", s2, v)])[0].val
             except Unsupported:
                 fv = None
+            ename = None
             if isinstance(fv, VPy) and fv.what == "excclass":
-                return [Out("exc", st, VExc(fv.obj, [], f"raise at line {s.lineno}"))]
-            if isinstance(fv, VPy) and fv.what == "class" and any(self._is_exc_class(c) for c in fv.obj.mro()):
-                return [Out("exc", st, VExc(fv.obj.name, [], f"raise at line {s.lineno}"))]
+                ename = fv.obj
+            elif isinstance(fv, VPy) and fv.what == "class" and any(self._is_exc_class(c) for c in fv.obj.mro()):
+                ename = fv.obj.name
+            if ename is not None:
+                origin = f"raise at line {s.lineno}"
+                # the message VALUE is dropped (S6), but evaluating its pieces is ordinary code that can itself raise
+                # (seed C04-17: `avps[-1].name` inside the message of a re-raise): the argument expressions are
+                # evaluated for their outcomes; an expression outside the subset falls back to dropping the message
+                argx = list(s.exc.args) + [kw.value for kw in s.exc.keywords]
+                if argx and not self.reg.flags.get("drop_exc_args"):
+                    try:
+                        return self.ev_list(st, argx, lambda s2, _vs: [Out("exc", s2, VExc(ename, [], origin))])
+                    except Unsupported:
+                        pass
+                return [Out("exc", st, VExc(ename, [], origin))]
 
         def got(s2, v):
             origin = f"raise at line {s.lineno}"
